@@ -910,11 +910,11 @@ func TestCheck(t *testing.T) {
 	rec.Assume("each JSON text is hashed 3 times from a fresh Unmarshal (Go map iteration order inside the library differs between evaluations)")
 	rec.Assume("histories (kind history): every hash is judged by the CONTENT of the TypedData variable at that moment (its four exported fields rendered to JSON): reference digest, and the same verdict as a new TypedData with that content; json.Unmarshal into a used variable merges into its maps (encoding/json) — the merged content is what is judged. EncodeTypedDataV4 may fill the empty EIP712Domain type / domain object into a payload that has none (deliberate); any other change of the payload is a violation")
 	rec.Assume("shared (kind shared): goroutines share one decoded payload / its type set, domain and message maps / one ABI type tree; a payload without EIP712Domain type or domain object is hashed once before it is shared (EncodeTypedDataV4 writes the defaults into it); concurrent-* kinds: the per-case judges from 4..8 goroutines at once on the heaviest cases")
-	kDoc := evid.NewKind(rec, "doc", judgeDoc)
+	kDoc := evid.NewKind(rec, "doc", judgeDoc).DeclareEach()
 	cpool := evid.NewPool(rec, "concurrent", judgeDoc, 32).DeclareEach()
-	kWallet := evid.NewKind(rec, "wallet", judgeWallet)
-	kABI := evid.NewKind(rec, "abi", judgeABI)
-	kHist := evid.NewKind(rec, "history", judgeHist)
+	kWallet := evid.NewKind(rec, "wallet", judgeWallet).DeclareEach()
+	kABI := evid.NewKind(rec, "abi", judgeABI).DeclareEach()
+	kHist := evid.NewKind(rec, "history", judgeHist).DeclareEach()
 	kShared := evid.NewKind(rec, "shared", judgeShared).DeclareEach()
 	pABI := evid.NewPool(rec, "concurrent-abi", judgeABI, 32).DeclareEach()
 	pWallet := evid.NewPool(rec, "concurrent-wallet", judgeWallet, 8).DeclareEach()
@@ -1008,11 +1008,11 @@ func TestCheck(t *testing.T) {
 
 func TestReplay(t *testing.T) {
 	rec := evid.Start("C04", rule)
-	evid.NewKind(rec, "doc", judgeDoc)
+	evid.NewKind(rec, "doc", judgeDoc).DeclareEach()
 	evid.NewPool(rec, "concurrent", judgeDoc, 0).DeclareEach()
-	evid.NewKind(rec, "wallet", judgeWallet)
-	evid.NewKind(rec, "abi", judgeABI)
-	evid.NewKind(rec, "history", judgeHist)
+	evid.NewKind(rec, "wallet", judgeWallet).DeclareEach()
+	evid.NewKind(rec, "abi", judgeABI).DeclareEach()
+	evid.NewKind(rec, "history", judgeHist).DeclareEach()
 	evid.NewKind(rec, "shared", judgeShared).DeclareEach()
 	evid.NewPool(rec, "concurrent-abi", judgeABI, 0).DeclareEach()
 	evid.NewPool(rec, "concurrent-wallet", judgeWallet, 0).DeclareEach()
